@@ -455,6 +455,26 @@ class ProofMachine(QueryMachine):
                     machine.proof_in_window += 1
                     machine.info['classes'].add('proof_request_across_backup')
             bp.backup_block = backup_block
+            # ... and proofs by position for a block that has just been (re-)advanced in memory
+            # but is not flushed: outside the chain served, so to be refused - and whatever the
+            # answer, nothing about the orphaned block may stay cached (checked at quiescence)
+            real_adv = bp.advance_block
+            bp._c11_adv = 0
+
+            def advance_block(block):
+                before = bp.state.height
+                real_adv(block)
+                if bp._c11_adv > 0 and bp.state.height == before + 1:
+                    bp._c11_adv -= 1
+                    for cl in [x for x in machine.clients if not x.closed][:1]:
+                        for pos in (0, 1):
+                            loop.call_soon(machine.send, cl, 'blockchain.transaction.id_from_pos',
+                                           [bp.state.height, pos, True],
+                                           {'kind': 'query',
+                                            'method': 'blockchain.transaction.id_from_pos'})
+                        machine.info['classes'].add('proof_by_position_for_unflushed_block')
+            bp.advance_block = advance_block
+        bp._c11_adv = 3
         bp._c11_armed.append(c)
         mode = op[3]
         if mode == 2:
@@ -559,6 +579,16 @@ class ProofMachine(QueryMachine):
             msg = check_tx_proof(b, pos, res['merkle'], f'at quiescence get_merkle({b.height},{pos})')
             if msg:
                 raise Violation(msg, 'tx_proof')
+            r = await c.call('blockchain.transaction.id_from_pos', [b.height, pos, True])
+            res = r.get('result')
+            if not isinstance(res, dict) or res.get('tx_hash') != W.hexrev(b.txs[pos].txid):
+                raise Violation(f'at quiescence id_from_pos({b.height},{pos},true) = '
+                                f'{str(r)[:200]}; the chain has {W.hexrev(b.txs[pos].txid)} there',
+                                'tx_proof_by_position')
+            msg = check_tx_proof(b, pos, res['merkle'],
+                                 f'at quiescence id_from_pos({b.height},{pos},true)')
+            if msg:
+                raise Violation(msg, 'tx_proof_by_position')
         r = await c.call('blockchain.block.header', [0, tip + 1])
         if 'error' not in r:
             raise Violation(f'block.header(0,{tip + 1}) beyond the tip returned a proof', 'beyond_tip')
